@@ -8,7 +8,8 @@
 (*        list (sequence: trim's `values` = excluded values / crop's `zones_ids`),         *)
 (*        mode ("trim" | "crop"), naneq (BOOLEAN: does the membership test let NaN match   *)
 (*        NaN?)]                                                                           *)
-(* Cell values are integers; NaN is the reserved integer NaN below.                        *)
+(* Cell values are integers; NaN is the reserved integer NaN below; +inf and -inf are the  *)
+(* ordinary integers -97 and -96 (they equal themselves and nothing else, like any value). *)
 (*                                                                                         *)
 (* The PROPERTY (C18) reads "NaN counts as excluded when listed", i.e. naneq = TRUE.       *)
 (* _trim tests `e == val or (isnan(e) and isnan(val))`, i.e. naneq = TRUE (since the fix   *)
